@@ -28,17 +28,36 @@ pub fn recipe(max_rank: usize, max_dim: u8, wild_unit_strides: bool, zero_weight
     })
 }
 
+fn plain_op() -> impl Strategy<Value = ItOp> {
+    prop_oneof![
+        4 => Just(ItOp::Next),
+        4 => Just(ItOp::NextBack),
+        1 => (0u8..4).prop_map(ItOp::Nth),
+        1 => Just(ItOp::Rest),
+        1 => Just(ItOp::RevRest),
+    ]
+}
+
+fn plain_ops(max: usize) -> impl Strategy<Value = Vec<ItOp>> {
+    proptest::collection::vec(plain_op(), 0..max)
+}
+
+/// A history: plain ops, optionally ended by a split (each half again optionally split once).
 pub fn it_ops() -> impl Strategy<Value = Vec<ItOp>> {
-    proptest::collection::vec(
-        prop_oneof![
-            4 => Just(ItOp::Next),
-            4 => Just(ItOp::NextBack),
-            1 => (0u8..4).prop_map(ItOp::Nth),
-            1 => Just(ItOp::Rest),
-            1 => Just(ItOp::RevRest),
-        ],
-        0..9,
-    )
+    let half = || {
+        (plain_ops(5), proptest::option::weighted(0.25, (any::<u8>(), plain_ops(4), plain_ops(4)))).prop_map(|(mut ops, sp)| {
+            if let Some((at, left, right)) = sp {
+                ops.push(ItOp::Split { at, left, right });
+            }
+            ops
+        })
+    };
+    (plain_ops(9), proptest::option::weighted(0.3, (any::<u8>(), half(), half()))).prop_map(|(mut ops, sp)| {
+        if let Some((at, left, right)) = sp {
+            ops.push(ItOp::Split { at, left, right });
+        }
+        ops
+    })
 }
 
 /// selector byte: mostly valid, sometimes (>= 250) invalid
@@ -75,6 +94,8 @@ fn nd_op() -> impl Strategy<Value = NdOp> {
         1 => idx_spec().prop_map(NdOp::GetMut),
         1 => (any::<u8>(), any::<u8>()).prop_map(|(start, len)| NdOp::SliceFirst { start, len }),
         2 => (0u8..3, selb(), selb(), any::<u8>(), any::<u8>()).prop_map(|(form, i, j, start, len)| NdOp::Slice2 { form, i, j, start, len }),
+        6 => (any::<bool>(), prop_oneof![4 => Just(false), 1 => Just(true)], 0u8..4, selb(), prop_oneof![6 => 0u8..4, 2 => any::<u8>()], idx_spec())
+            .prop_map(|(write, whole, m, dim, at, base)| NdOp::Array { write, whole, m, dim, at, base }),
     ]
 }
 
@@ -106,6 +127,15 @@ fn robs() -> impl Strategy<Value = RObs> {
         1 => Just(RObs::Map),
         1 => Just(RObs::Data),
         1 => Just(RObs::Item),
+        4 => (prop_oneof![4 => Just(false), 1 => Just(true)], 0u8..4, selb(), prop_oneof![6 => 0u8..4, 2 => any::<u8>()], idx_spec())
+            .prop_map(|(whole, m, dim, at, base)| RObs::Array { whole, m, dim, at, base }),
+        2 => items().prop_map(RObs::SliceCopy),
+        1 => Just(RObs::InitFrom),
+        1 => selb().prop_map(|dim| RObs::Concat { dim }),
+        1 => Just(RObs::ToContiguous),
+        1 => Just(RObs::ToShape),
+        1 => Just(RObs::ToSlice),
+        1 => (0u8..3).prop_map(RObs::Reshaped),
     ]
 }
 
